@@ -500,7 +500,9 @@ pub fn run(tier: &str, seed: u64) -> i32 {
         cases.len(),
     ));
     // D-graph
-    let g = quick_graph(if thorough { 3 } else { 2 });
+    let mut g = quick_graph(if thorough { 3 } else { 2 });
+    // (of the cycles of length three, those over struct nodes: every numbering of each is explored here)
+    g.extra_initial.retain(|s| s.nodes.iter().all(|k| *k == NodeKind::Struct));
     let (all, _, _) = enumerate(&g, g.max_edges as u32, 3_000_000);
     for (_, s) in &all {
         cases.push(PermCase {
